@@ -589,15 +589,18 @@ func (w *c16World) params(c C16Case) (allowance, collateral types.Currency, proo
 }
 
 // failingPool is a renter-side rhp4.TxPool that cannot produce the parent set.
-type failingPool struct{}
+type failingPool struct{ empty bool }
 
-func (failingPool) V2TransactionSet(types.ChainIndex, types.V2Transaction) (types.ChainIndex, []types.V2Transaction, error) {
+func (f failingPool) V2TransactionSet(basis types.ChainIndex, _ types.V2Transaction) (types.ChainIndex, []types.V2Transaction, error) {
+	if f.empty {
+		return basis, nil, nil // probe only: an empty set breaks the documented TxPool contract
+	}
 	return types.ChainIndex{}, nil, errors.New("rhpc: injected transaction pool failure")
 }
 
 func (w *c16World) pool(c C16Case) rhp4.TxPool {
 	if w.poolFails {
-		return failingPool{}
+		return failingPool{empty: os.Getenv("VERIF_C16_PROBE_EMPTY_POOL") != ""}
 	}
 	return w.R.CM
 }
